@@ -139,7 +139,10 @@ class Frame(BaseModel):
         if isinstance(self.payload, DataPacket):
             payload_size = self.payload.get_packet_size()
 
-        return float(len(self.model_dump_json().encode("utf-8"))) + payload_size
+        # the wall-clock timestamps and the randomly drawn ICMP identifier are serialised with a varying number of characters:
+        # they must not decide how much bandwidth a frame takes
+        run_specific = {"sent_timestamp": True, "received_timestamp": True, "icmp": {"identifier": True}}
+        return float(len(self.model_dump_json(exclude=run_specific).encode("utf-8"))) + payload_size
 
     @property
     def size_Mbits(self) -> float:  # noqa - Keep it as MBits as this is how they're expressed
